@@ -32,13 +32,15 @@ Proof. exact delimit_whole. Qed.
 Print Assumptions C07_text_whole.
 
 Theorem C07_text_terminated : forall e buf term k, wf buf -> se_leading e = None -> se_term e = Some term ->
-  bytes_index term buf = Some k -> k <= zlen buf -> delimit e buf = Ok (firstn (Z.to_nat k) buf).
+  term_index (se_charset e) term buf = Some k -> k <= zlen buf -> delimit e buf = Ok (firstn (Z.to_nat k) buf).
 Proof. exact delimit_terminated. Qed.
 Print Assumptions C07_text_terminated.
-Theorem C07_first_terminator : forall needle hay k, bytes_index needle hay = Some k ->
-  0 <= k /\ prefix_at needle (skipn (Z.to_nat k) hay) = true /\
-  forall j, (j < Z.to_nat k)%nat -> prefix_at needle (skipn j hay) = false.
-Proof. exact bytes_index_first. Qed.
+(* the terminator is looked for on character boundaries: the first multiple q of the character set's code-unit width (1, 2 for
+   UTF-16, 4 for UTF-32) at which the termination character's bytes stand; no earlier boundary carries them *)
+Theorem C07_first_terminator : forall cs needle hay k, term_index cs needle hay = Some k ->
+  exists q : nat, k = Z.of_nat (char_width cs * q) /\ prefix_at needle (skipn (char_width cs * q) hay) = true /\
+  forall j, (j < q)%nat -> prefix_at needle (skipn (char_width cs * j) hay) = false.
+Proof. exact term_index_first. Qed.
 Print Assumptions C07_first_terminator.
 
 Theorem C07_text_leading : forall e buf tag, wf buf -> se_leading e = Some tag -> 0 < tag -> tag <= 8 * zlen buf ->
@@ -87,7 +89,7 @@ Theorem C07_decode_fuel_irrelevant : forall cs bs k,
   end.
 Proof. exact decode_text_fuel_irrelevant. Qed.
 Print Assumptions C07_decode_fuel_irrelevant.
-Theorem C07_terminator_search_fuel_irrelevant : forall needle hay k,
-  find_sub (S (List.length hay) + k) needle hay 0 = bytes_index needle hay.
-Proof. exact bytes_index_fuel_irrelevant. Qed.
+Theorem C07_terminator_search_fuel_irrelevant : forall cs needle hay k,
+  find_aligned (S (List.length hay) + k) (char_width cs) needle hay 0 = term_index cs needle hay.
+Proof. exact term_index_fuel_irrelevant. Qed.
 Print Assumptions C07_terminator_search_fuel_irrelevant.
